@@ -15,6 +15,7 @@ import (
 	"fmt"
 	"os"
 	"path/filepath"
+	"strconv"
 	"strings"
 	"time"
 
@@ -392,6 +393,51 @@ func runC03(r *evid.Run) {
 		r.Inconclusive("progs: %v", err)
 		return
 	}
+	// ---- immediates beyond TLC's integers --------------------------------------------------------------
+	// BMIsa!Encode lays an immediate out as ToBits(v, rsize); TLC cannot evaluate it for rsize >= 32, so
+	// for 32- and 64-bit registers the same law is applied here to boundary values: the word is the
+	// 16-bit architecture's word with the immediate field replaced by the binary expansion of v.
+	var wide int64
+	for _, rs := range []int{32, 33, 48, 64} {
+		m, err := mkMachine(rs, 2, 0, 0, 0, []string{"j", "nop", "rset"}, "nop\n")
+		if err != nil {
+			r.Inconclusive("cannot build a %d-bit architecture: %v", rs, err)
+			break
+		}
+		opb := m.Opcodes_bits()
+		for _, v := range []uint64{0, 1, 1<<31 - 1, 1 << 31, 1<<31 + 5, 1<<32 - 1, 3212836864, 1 << 32, 1<<47 + 3, 1<<63 + 1, 1<<64 - 1} {
+			if rs < 64 && v >= 1<<uint(rs) {
+				continue
+			}
+			wide++
+			line := fmt.Sprintf("rset r1 %d", v)
+			c := map[string]interface{}{"rsize": rs, "line": line}
+			word, aerr := asmOne(m, line)
+			if aerr != nil {
+				r.Violate("wide-immediate:rejected", fmt.Sprintf("%q is rejected on a %d-bit architecture: %v", line, rs, aerr), c)
+				continue
+			}
+			want := strconv.FormatUint(v, 2)
+			for len(want) < rs {
+				want = "0" + want
+			}
+			if len(word) != m.Max_word() || len(word) < opb+2+rs || word[opb+2:opb+2+rs] != want {
+				c["word"] = word
+				r.Violate("wide-immediate:encoding", fmt.Sprintf("%q assembles to %s on a %d-bit architecture: the immediate field is not the binary expansion of the value", line, word, rs), c)
+				continue
+			}
+			dis, derr := disasmOne(m, word)
+			if derr != nil || dis != line {
+				c["word"], c["disassembly"] = word, dis
+				class := fmt.Sprintf("rsize%d", rs)
+				if v >= 1<<63 {
+					class += ":bit63-set"
+				}
+				r.Violate("wide-immediate:roundtrip:"+class, fmt.Sprintf("%q assembles to %s which disassembles to %q (%v) on a %d-bit architecture", line, word, dis, derr, rs), c)
+			}
+		}
+	}
+	r.Set("wide_immediates_replayed", wide)
 	r.Set("programs_replayed", progs)
 	r.Set("rows_replayed", rows)
 	r.Set("traces_validated_against_impl", rows)
